@@ -70,6 +70,44 @@ Proof.
       * apply Rmult_le_compat_r. apply Rlt_le, Rinv_0_lt_compat; lra. apply IZR_le. lia.
 Qed.
 
+(* ------------------------------------------------------------------ one correctly rounded product of exact operands *)
+Lemma dmul_close n (p : b64) P :
+  (Z.abs n < 2 ^ 53)%Z -> (1 <= P < 2 ^ 100)%Z ->
+  B2R p = IZR P -> is_finite p = true ->
+  Rabs (B2R (dmul (d_of_Z n) p) - IZR n * IZR P) <= / 2 * bpow radix2 (- 53 + 1) * Rabs (IZR n * IZR P)
+  /\ is_finite (dmul (d_of_Z n) p) = true.
+Proof.
+  intros Hn Hp Ep Fp.
+  destruct (d_of_Z_exact n Hn) as [En Fn].
+  assert (Hp1 : 1 <= IZR P) by (apply IZR_le; lia).
+  unfold dmul.
+  pose proof (Bmult_correct 53 1024 Hprec64 Hmax64 mode_NE (d_of_Z n) p) as C.
+  rewrite En, Ep in C.
+  set (x := IZR n * IZR P) in *.
+  assert (Hx : Rabs x <= bpow radix2 200).
+  { unfold x. rewrite <- mult_IZR, <- abs_IZR. change (bpow radix2 200) with (IZR (2 ^ 200)). apply IZR_le.
+    rewrite Z.abs_mul. rewrite (Z.abs_eq P) by lia.
+    apply Z.le_trans with (2 ^ 53 * 2 ^ 100)%Z; [|vm_compute; discriminate].
+    apply Z.mul_le_mono_nonneg; lia. }
+  assert (Hov : Rabs (round radix2 fexp64 (round_mode mode_NE) x) < bpow radix2 1024).
+  { apply Rle_lt_trans with (bpow radix2 200).
+    - apply abs_round_le_generic; [apply (fexp_correct 53 1024 Hprec64) | apply valid_rnd_round_mode | | exact Hx].
+      apply generic_format_bpow. unfold fexp64, SpecFloat.fexp, SpecFloat.emin. lia.
+    - apply bpow_lt. lia. }
+  rewrite Rlt_bool_true in C by exact Hov.
+  destruct C as (C1 & C2 & _). split; [|rewrite C2, Fn, Fp; reflexivity].
+  rewrite C1.
+  destruct (Z.eq_dec n 0) as [->|Hn0].
+  - unfold x. rewrite Rmult_0_l, round_0 by apply valid_rnd_round_mode.
+    rewrite Rminus_0_r, Rabs_R0. lra.
+  - change fexp64 with (FLT_exp (3 - 1024 - 53) 53). simpl round_mode.
+    apply relative_error_N_FLT. reflexivity.
+    apply Rle_trans with 1.
+    + change 1 with (bpow radix2 0). apply bpow_le. lia.
+    + unfold x. rewrite Rabs_mult, (Rabs_pos_eq (IZR P)), <- abs_IZR by lra.
+      assert (1 <= IZR (Z.abs n)) by (apply IZR_le; lia). nra.
+Qed.
+
 (* ------------------------------------------------------------------ the contract assumed about libm's pow *)
 Definition pow10_contract (pow10 : Z -> b64) : Prop :=
   forall k, (0 <= k <= 22)%Z -> B2R (pow10 k) = IZR (10 ^ k) /\ is_finite (pow10 k) = true.
@@ -81,6 +119,16 @@ Proof.
   - apply Z.le_lt_trans with (10 ^ 22)%Z; [apply Z.pow_le_mono_r; lia | reflexivity].
 Qed.
 
+Lemma pow10_lt_2_100 k : (0 <= k <= 22)%Z -> (1 <= 10 ^ k < 2 ^ 100)%Z.
+Proof.
+  intro H. split.
+  - apply (Z.pow_le_mono_r 10 0 k); lia.
+  - apply Z.le_lt_trans with (10 ^ 22)%Z; [apply Z.pow_le_mono_r; lia | reflexivity].
+Qed.
+
+Lemma p10_as_pow s : (0 <= s)%Z -> bpow radix10 s = IZR (10 ^ s).
+Proof. intro H. symmetry. change 10%Z with (radix_val radix10). apply IZR_Zpower. exact H. Qed.
+
 Lemma p10_as_inv s : (0 <= s)%Z -> bpow radix10 (- s) = / IZR (10 ^ s).
 Proof.
   intro H. rewrite bpow_opp. f_equal. symmetry. change 10%Z with (radix_val radix10). apply IZR_Zpower. exact H.
@@ -91,20 +139,22 @@ Proof. intro H. unfold sint64. rewrite Z.mod_small by lia. lia. Qed.
 
 Section WithPow.
 Variable pow10 : Z -> b64.
+Variable fx_neg : bool.       (* which variant of the negative-scale arithmetic (ScalImpl.v): the theorems of this section hold for both *)
 Hypothesis pow10_ok : pow10_contract pow10.
 
 (* the library's decode is within 2^-53 relative of the exact physical value *)
 Theorem decode_float_close en i :
   (0 <= e_scale en <= 22)%Z -> (0 <= i)%Z -> i <> missing_ivalue (e_nbits en) ->
   (Z.abs (i + e_ref en) < 2 ^ 53)%Z ->
-  Rabs (B2R (cvt_i64_to_dval pow10 en i) - physR (e_scale en) (e_ref en) i)
+  Rabs (B2R (cvt_i64_to_dval pow10 fx_neg en i) - physR (e_scale en) (e_ref en) i)
     <= bpow radix2 (- 53) * Rabs (physR (e_scale en) (e_ref en) i)
-  /\ is_finite (cvt_i64_to_dval pow10 en i) = true.
+  /\ is_finite (cvt_i64_to_dval pow10 fx_neg en i) = true.
 Proof.
   intros Hs Hi Hm Hn. unfold cvt_i64_to_dval.
   destruct (Z.ltb_spec i 0) as [L|_]; [lia|].
   destruct (Z.eqb_spec i (missing_ivalue (e_nbits en))) as [E|_]; [contradiction|].
   cbn [orb]. rewrite sint64_id by lia.
+  destruct (Z.ltb_spec (e_scale en) 0) as [L|_]; [lia|]. rewrite andb_false_r.
   destruct (pow10_ok (e_scale en) Hs) as [Ep Fp].
   destruct (ddiv_close (i + e_ref en) (pow10 (e_scale en)) (10 ^ e_scale en) Hn (pow10_lt_2_53 _ Hs) Ep Fp) as [C F].
   split; [|exact F].
@@ -117,7 +167,7 @@ Qed.
 Theorem spec_raw_of_library_decode en i :
   (0 <= e_scale en <= 22)%Z -> (1 <= e_nbits en <= 32)%Z -> (- 2 ^ 31 <= e_ref en < 2 ^ 31)%Z ->
   (0 <= i <= 2 ^ e_nbits en - 2)%Z ->
-  quantR (e_scale en) (e_ref en) (e_nbits en) (B2R (cvt_i64_to_dval pow10 en i)) = i.
+  quantR (e_scale en) (e_ref en) (e_nbits en) (B2R (cvt_i64_to_dval pow10 fx_neg en i)) = i.
 Proof.
   intros Hs Hw Hr Hi.
   assert (W : (2 ^ e_nbits en <= 2 ^ 32)%Z) by (apply Z.pow_le_mono_r; lia).
@@ -144,7 +194,7 @@ Qed.
 
 (* all ones <-> missing, library side *)
 Theorem decode_allones_is_missing en :
-  (1 <= e_nbits en < 64)%Z -> cvt_i64_to_dval pow10 en (2 ^ e_nbits en - 1) = dbl_max.
+  (1 <= e_nbits en < 64)%Z -> cvt_i64_to_dval pow10 fx_neg en (2 ^ e_nbits en - 1) = dbl_max.
 Proof.
   intro Hw. unfold cvt_i64_to_dval, missing_ivalue.
   destruct (Z.leb_spec (e_nbits en) 0); [lia|]. destruct (Z.leb_spec 64 (e_nbits en)); [lia|].
@@ -155,7 +205,7 @@ Lemma is_missing_dbl_max : is_missing_double dbl_max = true.
 Proof. vm_compute. reflexivity. Qed.
 
 Theorem encode_missing_is_allones desc en :
-  (1 <= e_nbits en <= 32)%Z -> cvt_dval_to_i64 pow10 desc en dbl_max = (2 ^ e_nbits en - 1)%Z.
+  (1 <= e_nbits en <= 32)%Z -> cvt_dval_to_i64 pow10 fx_neg desc en dbl_max = (2 ^ e_nbits en - 1)%Z.
 Proof.
   intro Hw. unfold cvt_dval_to_i64.
   destruct (Z.ltb_spec 32 (e_nbits en)); [lia|].
@@ -170,11 +220,11 @@ Proof. reflexivity. Qed.
 Theorem decode_not_missing en i :
   (0 <= e_scale en <= 22)%Z -> (0 <= i)%Z -> i <> missing_ivalue (e_nbits en) ->
   (Z.abs (i + e_ref en) < 2 ^ 53)%Z ->
-  is_missing_double (cvt_i64_to_dval pow10 en i) = false.
+  is_missing_double (cvt_i64_to_dval pow10 fx_neg en i) = false.
 Proof.
   intros Hs Hi Hm Hn.
   destruct (decode_float_close en i Hs Hi Hm Hn) as [C F].
-  set (d := cvt_i64_to_dval pow10 en i) in *.
+  set (d := cvt_i64_to_dval pow10 fx_neg en i) in *.
   assert (B : Rabs (B2R d) < B2R dbl_max).
   { assert (P : Rabs (physR (e_scale en) (e_ref en) i) <= IZR (2 ^ 53)).
     { unfold physR. rewrite Rabs_mult, (Rabs_pos_eq (bpow radix10 _)) by apply Rlt_le, p10_pos.
@@ -214,11 +264,11 @@ Proof.
 Qed.
 
 (* the executable form of spec_raw_of_library_decode: what the correspondence driver prints *)
-Theorem spec_raw_of_library_decode_Q pow10 en i :
+Theorem spec_raw_of_library_decode_Q pow10 fx_neg en i :
   pow10_contract pow10 ->
   (0 <= e_scale en <= 22)%Z -> (1 <= e_nbits en <= 32)%Z -> (- 2 ^ 31 <= e_ref en < 2 ^ 31)%Z ->
   (0 <= i <= 2 ^ e_nbits en - 2)%Z ->
-  quantQ (e_scale en) (e_ref en) (e_nbits en) (B2Q (cvt_i64_to_dval pow10 en i)) = i.
+  quantQ (e_scale en) (e_ref en) (e_nbits en) (B2Q (cvt_i64_to_dval pow10 fx_neg en i)) = i.
 Proof.
   intros Hc Hs Hw Hr Hi. rewrite quantQ_correct, B2Q_correct. apply spec_raw_of_library_decode; assumption.
 Qed.
@@ -294,17 +344,17 @@ Section WithPowNeg.
 Variable pow10 : Z -> b64.
 Hypothesis pow10_neg_ok : pow10_neg_contract pow10.
 
-Theorem decode_float_close_neg en i :
+Theorem decode_float_close_neg_div en i :
   (-22 <= e_scale en < 0)%Z -> (0 <= i)%Z -> i <> missing_ivalue (e_nbits en) ->
   (Z.abs (i + e_ref en) < 2 ^ 53)%Z ->
-  Rabs (B2R (cvt_i64_to_dval pow10 en i) - physR (e_scale en) (e_ref en) i)
+  Rabs (B2R (cvt_i64_to_dval pow10 false en i) - physR (e_scale en) (e_ref en) i)
     <= bpow radix2 (- 51) * Rabs (physR (e_scale en) (e_ref en) i)
-  /\ is_finite (cvt_i64_to_dval pow10 en i) = true.
+  /\ is_finite (cvt_i64_to_dval pow10 false en i) = true.
 Proof.
   intros Hs Hi Hm Hn. unfold cvt_i64_to_dval.
   destruct (Z.ltb_spec i 0) as [L|_]; [lia|].
   destruct (Z.eqb_spec i (missing_ivalue (e_nbits en))) as [E|_]; [contradiction|].
-  cbn [orb]. rewrite sint64_id by lia.
+  cbn [orb andb]. rewrite sint64_id by lia.
   set (n := (i + e_ref en)%Z) in *. set (s := e_scale en) in *.
   destruct (pow10_neg_ok s Hs) as [Fp Cp].
   destruct (d_of_Z_exact n Hn) as [En Fn].
@@ -363,17 +413,17 @@ Proof.
   unfold u. change (-51)%Z with (1 + -52)%Z. rewrite bpow_plus. reflexivity.
 Qed.
 
-Theorem spec_raw_of_library_decode_neg en i :
+Theorem spec_raw_of_library_decode_neg_div en i :
   (-22 <= e_scale en < 0)%Z -> (1 <= e_nbits en <= 32)%Z -> (- 2 ^ 31 <= e_ref en < 2 ^ 31)%Z ->
   (0 <= i <= 2 ^ e_nbits en - 2)%Z ->
-  quantR (e_scale en) (e_ref en) (e_nbits en) (B2R (cvt_i64_to_dval pow10 en i)) = i.
+  quantR (e_scale en) (e_ref en) (e_nbits en) (B2R (cvt_i64_to_dval pow10 false en i)) = i.
 Proof.
   intros Hs Hw Hr Hi.
   assert (W : (2 ^ e_nbits en <= 2 ^ 32)%Z) by (apply Z.pow_le_mono_r; lia).
   assert (Hm : i <> missing_ivalue (e_nbits en)).
   { unfold missing_ivalue. destruct (Z.leb_spec (e_nbits en) 0); [lia|]. destruct (Z.leb_spec 64 (e_nbits en)); lia. }
   assert (Hn : (Z.abs (i + e_ref en) < 2 ^ 49)%Z) by lia.
-  destruct (decode_float_close_neg en i Hs (proj1 Hi) Hm) as [C _]; [lia|].
+  destruct (decode_float_close_neg_div en i Hs (proj1 Hi) Hm) as [C _]; [lia|].
   apply quant_tolerant; [exact Hi|].
   eapply Rle_lt_trans; [exact C|].
   unfold physR. rewrite Rabs_mult, (Rabs_pos_eq (bpow radix10 _)) by apply Rlt_le, p10_pos.
@@ -389,6 +439,74 @@ Proof.
 Qed.
 
 End WithPowNeg.
+
+(* ------------------------------------------------------------------ negative scales: one correctly rounded product by the exact 10^-s *)
+Section WithPowNegExact.
+Variable pow10 : Z -> b64.
+Hypothesis pow10_ok : pow10_contract pow10.
+
+Theorem decode_float_close_neg_mul en i :
+  (-22 <= e_scale en < 0)%Z -> (0 <= i)%Z -> i <> missing_ivalue (e_nbits en) ->
+  (Z.abs (i + e_ref en) < 2 ^ 53)%Z ->
+  Rabs (B2R (cvt_i64_to_dval pow10 true en i) - physR (e_scale en) (e_ref en) i)
+    <= bpow radix2 (- 53) * Rabs (physR (e_scale en) (e_ref en) i)
+  /\ is_finite (cvt_i64_to_dval pow10 true en i) = true.
+Proof.
+  intros Hs Hi Hm Hn. unfold cvt_i64_to_dval.
+  destruct (Z.ltb_spec i 0) as [L|_]; [lia|].
+  destruct (Z.eqb_spec i (missing_ivalue (e_nbits en))) as [E|_]; [contradiction|].
+  cbn [orb]. rewrite sint64_id by lia.
+  destruct (Z.ltb_spec (e_scale en) 0) as [_|L]; [|lia]. cbn [andb].
+  assert (Hk : (0 <= - e_scale en <= 22)%Z) by lia.
+  destruct (pow10_ok (- e_scale en)%Z Hk) as [Ep Fp].
+  destruct (dmul_close (i + e_ref en) (pow10 (- e_scale en)%Z) (10 ^ (- e_scale en))%Z Hn (pow10_lt_2_100 _ Hk) Ep Fp) as [C F].
+  split; [|exact F].
+  unfold physR. rewrite p10_as_pow by lia.
+  replace (bpow radix2 (-53)) with (/ 2 * bpow radix2 (- 53 + 1)); [exact C|].
+  change (bpow radix2 (-53 + 1)) with (bpow radix2 (1 + -53)). rewrite bpow_plus. change (bpow radix2 1) with 2. field.
+Qed.
+
+Theorem spec_raw_of_library_decode_neg_mul en i :
+  (-22 <= e_scale en < 0)%Z -> (1 <= e_nbits en <= 32)%Z -> (- 2 ^ 31 <= e_ref en < 2 ^ 31)%Z ->
+  (0 <= i <= 2 ^ e_nbits en - 2)%Z ->
+  quantR (e_scale en) (e_ref en) (e_nbits en) (B2R (cvt_i64_to_dval pow10 true en i)) = i.
+Proof.
+  intros Hs Hw Hr Hi.
+  assert (W : (2 ^ e_nbits en <= 2 ^ 32)%Z) by (apply Z.pow_le_mono_r; lia).
+  assert (Hm : i <> missing_ivalue (e_nbits en)).
+  { unfold missing_ivalue. destruct (Z.leb_spec (e_nbits en) 0); [lia|]. destruct (Z.leb_spec 64 (e_nbits en)); lia. }
+  assert (Hn : (Z.abs (i + e_ref en) < 2 ^ 52)%Z) by lia.
+  destruct (decode_float_close_neg_mul en i Hs (proj1 Hi) Hm) as [C _]; [lia|].
+  apply quant_tolerant; [exact Hi|].
+  eapply Rle_lt_trans; [exact C|].
+  unfold physR. rewrite Rabs_mult, (Rabs_pos_eq (bpow radix10 _)) by apply Rlt_le, p10_pos.
+  rewrite <- Rmult_assoc. unfold Rdiv. rewrite (Rmult_comm (bpow radix10 _) (/ 2)).
+  apply Rmult_lt_compat_r; [apply p10_pos|].
+  rewrite <- abs_IZR.
+  apply Rle_lt_trans with (bpow radix2 (-53) * IZR (2 ^ 52 - 1)).
+  - apply Rmult_le_compat_l; [apply bpow_ge_0|]. apply IZR_le. lia.
+  - change (bpow radix2 (-53)) with (/ IZR (2 ^ 53)).
+    apply Rmult_lt_reg_l with (IZR (2 ^ 53)); [apply IZR_lt; reflexivity|].
+    rewrite <- Rmult_assoc, Rinv_r, Rmult_1_l by (apply not_0_IZR; discriminate).
+    replace (IZR (2 ^ 53) * / 2) with (IZR (2 ^ 52)).
+    + apply IZR_lt. reflexivity.
+    + change (2 ^ 53)%Z with (2 * 2 ^ 52)%Z. rewrite mult_IZR. field.
+Qed.
+
+End WithPowNegExact.
+
+(* both variants *)
+Theorem spec_raw_of_library_decode_neg pow10 fx_neg en i :
+  pow10_contract pow10 -> pow10_neg_contract pow10 ->
+  (-22 <= e_scale en < 0)%Z -> (1 <= e_nbits en <= 32)%Z -> (- 2 ^ 31 <= e_ref en < 2 ^ 31)%Z ->
+  (0 <= i <= 2 ^ e_nbits en - 2)%Z ->
+  quantR (e_scale en) (e_ref en) (e_nbits en) (B2R (cvt_i64_to_dval pow10 fx_neg en i)) = i.
+Proof.
+  intros H1 H2. destruct fx_neg.
+  - apply spec_raw_of_library_decode_neg_mul. exact H1.
+  - apply spec_raw_of_library_decode_neg_div. exact H2.
+Qed.
+
 
 (* the negative-scale contract is satisfiable too: the correctly rounded powers meet it (checked by computation, k = -22..-1) *)
 Definition pow_close_check (f : b64) (k : Z) : bool :=
@@ -450,12 +568,13 @@ Local Open Scope Z_scope.
 Lemma wrap64_range z : 0 <= wrap64 z < 2 ^ 64.
 Proof. unfold wrap64. apply Z.mod_pos_bound. reflexivity. Qed.
 
-(* for scale >= 0 the encoder never returns a value wider than the field: anything not below all-ones is reported as all-ones *)
-Theorem encode_never_wider pow10 desc en f :
-  0 <= e_scale en -> 1 <= e_nbits en <= 32 ->
-  0 <= cvt_dval_to_i64 pow10 desc en f <= 2 ^ e_nbits en - 1.
+(* the encoder never returns a value wider than the field, whatever double it is given: anything not below all-ones is
+   reported as all-ones (both variants, every scale) *)
+Theorem encode_never_wider pow10 fx_neg desc en f :
+  1 <= e_nbits en <= 32 ->
+  0 <= cvt_dval_to_i64 pow10 fx_neg desc en f <= 2 ^ e_nbits en - 1.
 Proof.
-  intros Hs Hw. unfold cvt_dval_to_i64.
+  intros Hw. unfold cvt_dval_to_i64.
   assert (W : 2 ^ 1 <= 2 ^ e_nbits en <= 2 ^ 32) by (split; apply Z.pow_le_mono_r; lia).
   assert (M : missing_ivalue (e_nbits en) = 2 ^ e_nbits en - 1).
   { unfold missing_ivalue. destruct (Z.leb_spec (e_nbits en) 0); [lia|]. destruct (Z.leb_spec 64 (e_nbits en)); [lia|reflexivity]. }
@@ -468,14 +587,17 @@ Proof.
   { destruct (desc_x desc =? 31); [|lia].
     destruct (Z.eqb_spec (wrap64 (cvt_si32 f)) (2 ^ e_nbits en - 1)) as [E|E]; [rewrite E|]; lia. }
   destruct (blt f _); [lia|].
-  destruct (Z.leb_spec 0 (e_scale en)); [|lia].
-  match goal with |- context [if (2 ^ e_nbits en - 1 <=? ?v) then _ else _] => set (r := v); assert (R : 0 <= r) end.
-  { unfold r. destruct (_ <? e_ref en).
-    - unfold cvt_u64. destruct (bge _ _).
-      + apply Z.lxor_nonneg. split; intros _; [vm_compute; discriminate | apply wrap64_range].
-      + apply wrap64_range.
-    - destruct (bgt f dzero); apply wrap64_range. }
-  destruct (Z.leb_spec (2 ^ e_nbits en - 1) r); lia.
+  match goal with |- context [if (2 ^ e_nbits en - 1 <=? ?v) then _ else _] => set (r := v) end.
+  destruct (Z.leb_spec 0 (e_scale en)).
+  - assert (R : 0 <= r).
+    { unfold r. destruct (_ <? e_ref en).
+      - unfold cvt_u64. destruct (bge _ _).
+        + apply Z.lxor_nonneg. split; intros _; [vm_compute; discriminate | apply wrap64_range].
+        + apply wrap64_range.
+      - destruct (bgt f dzero); apply wrap64_range. }
+    destruct (Z.leb_spec (2 ^ e_nbits en - 1) r); lia.
+  - match goal with |- context [if (2 ^ e_nbits en - 1 <=? ?v) then _ else _] => set (r2 := v); assert (R : 0 <= r2) by apply wrap64_range end.
+    destruct (Z.leb_spec (2 ^ e_nbits en - 1) r2); lia.
 Qed.
 Local Close Scope Z_scope.
 
@@ -485,8 +607,8 @@ Local Close Scope Z_scope.
    encodings x boundary grid (ScalPartial.encode_float_eq_raw_partial).  The general error analysis of the three encoder
    branches is not done. *)
 Definition C08_full_statement : Prop :=
-  forall pow10 : Z -> b64, pow10_contract pow10 -> pow10_neg_contract pow10 ->
+  forall (pow10 : Z -> b64) (fx_neg : bool), pow10_contract pow10 -> pow10_neg_contract pow10 ->
   forall (desc : Z) (en : enc) (i : Z),
     (-22 <= e_scale en <= 22)%Z -> (1 <= e_nbits en <= 32)%Z -> (- 2 ^ 31 <= e_ref en < 2 ^ 31)%Z ->
     (0 <= i <= 2 ^ e_nbits en - 2)%Z ->
-    cvt_dval_to_i64 pow10 desc en (cvt_i64_to_dval pow10 en i) = i.
+    cvt_dval_to_i64 pow10 fx_neg desc en (cvt_i64_to_dval pow10 fx_neg en i) = i.
